@@ -244,7 +244,11 @@ class Zoo:
         self.entities: list = []
         self._pre: list = []          # (t_ns, factory) materialised after Simulation()
         self._post: list = []         # callables run after Simulation() (clock injected)
-        self.horizon_ns: int | None = None
+        self.horizon_ns: int | None = None    # relative to the start of the simulation
+        t0 = sc.get("t0_ns", 0)
+        if isinstance(t0, bool) or not isinstance(t0, int) or not 0 <= t0 <= 10**15:
+            raise InvalidScenario("t0_ns")
+        self.t0_ns = t0                        # Simulation(start_time=...); every harness time is relative to it
         self.sim: Simulation | None = None
         self.harness_ids: set[int] = set()
         self.touched: set[str] = set()
@@ -293,6 +297,27 @@ class Zoo:
         self.probes[name] += n
 
     @property
+    def t0_s(self) -> float:
+        """Start of the simulation in seconds (for absolute-time configuration: shift boundaries, gate schedules ...)."""
+        return self.t0_ns / NS
+
+    def abs_s(self, rel_s: float) -> float:
+        """Absolute float seconds of a time given relative to the start, chosen so that the repo's own
+        quantisation int(x * 1e9) gives exactly t0 + ns(rel_s) (a user writing an absolute time means that instant)."""
+        if not self.t0_ns:
+            return rel_s
+        import math
+
+        target = self.t0_ns + ns(rel_s)
+        f = target / NS
+        for _ in range(4):
+            got = int(f * NS)
+            if got == target:
+                break
+            f = math.nextafter(f, math.inf if got < target else -math.inf)
+        return f
+
+    @property
     def now(self) -> Instant:
         return self.sim._clock.now
 
@@ -310,7 +335,7 @@ class Zoo:
         return e
 
     def at(self, t_ns, target, etype, ctx=None, daemon=False):
-        """Pre-run harness event at absolute t_ns (materialised after Simulation())."""
+        """Pre-run harness event at t_ns after the start of the simulation (materialised after Simulation())."""
         t_ns = int(t_ns)
         if t_ns < 0:
             raise InvalidScenario("negative time")
@@ -318,6 +343,12 @@ class Zoo:
 
     def run_at(self, t_ns, actor, fn, *args, daemon=False):
         self.at(t_ns, actor, "act", {"fn": fn, "args": args}, daemon=daemon)
+
+    def mark_harness(self, evs):
+        """Register events created by harness-side helpers (chaosnet.FaultDriver) as the harness's own."""
+        for e in evs if isinstance(evs, list) else [evs]:
+            self.harness_ids.add(e._id)
+        return evs
 
     def after_init(self, fn):
         """fn() -> Event | list[Event] | None, called once the clock is injected;
@@ -338,7 +369,11 @@ class Zoo:
     def _emitter(self, pushed=None):
         cur = getattr(self.sim, "_last_event", None)
         if cur is None:
-            return None, "harness"
+            # before the first delivery: an event handed out by a component API and scheduled by user code
+            pt = getattr(getattr(pushed, "target", None), "_resource", getattr(pushed, "target", None))
+            if pt is not None and self._is_repo_entity(pt) and type(pt).__name__ in self._repo_classes:
+                return None, type(pt).__name__
+            return None, self.subject
         t = cur.target
         t = getattr(t, "_resource", t)
         if self._is_repo_entity(t):
@@ -521,11 +556,12 @@ class Zoo:
             # Client/PooledClient build event types as f"{self.name}_request"
             self._names = sorted({e.name for e in self.entities if type(e).__name__ in ("Client", "PooledClient")},
                                  key=lambda s: (-len(s), s))
-            end = Instant(int(self.horizon_ns)) if self.horizon_ns is not None else None
-            sim = self.sim = Simulation(entities=self.entities, end_time=end)
+            t0 = self.t0_ns
+            end = Instant(t0 + int(self.horizon_ns)) if self.horizon_ns is not None else None
+            sim = self.sim = Simulation(entities=self.entities, start_time=Instant(t0) if t0 else None, end_time=end)
             evs = []
             for (t_ns, target, etype, ctx, daemon) in self._pre:
-                e = Event(time=Instant(t_ns), event_type=etype, target=target, daemon=daemon,
+                e = Event(time=Instant(t0 + t_ns), event_type=etype, target=target, daemon=daemon,
                           context=ctx if ctx is not None else None)
                 self.harness_ids.add(e._id)
                 evs.append(e)
@@ -537,11 +573,13 @@ class Zoo:
                 if out is None:
                     continue
                 evs.extend(out if isinstance(out, list) else [out])
+            # the push monitor is installed first: start events handed out by components (start(), start_event(),
+            # warmup(), prime() ...) are judged when they are scheduled, against the simulation's start time
+            self._install_push_monitor()
             for e in evs:
                 sim.schedule(e)
             mon = self.mon = Monitor(sim, cap=DELIVERY_CAP, spin_cap=SPIN_CAP, invariant=self._on_delivery,
                                      spin_sig=self._spin_sig)
-            self._install_push_monitor()
             log.setLevel(logging.WARNING)
             log.propagate = False
             log.addHandler(handler)
@@ -592,7 +630,7 @@ class Zoo:
             "discards": len(handler.hits),
             "deliveries": mon.seq,
             "digest": mon.digest,
-            "last_ns": mon.last_time_ns,
+            "last_ns": max(0, mon.last_time_ns - self.t0_ns),
             "max_same_t": mon.max_same_t,
         }
 
@@ -641,7 +679,7 @@ def arrivals(rng, n, span_s=1.0, marks=(), start0=None):
     if not out:
         out.append(t)
     while len(out) < n:
-        mode = rng.choice(["burst", "burst", "gap", "steady", "steady", "tight", "mark", "mark"])
+        mode = rng.choice(["burst", "burst", "gap", "steady", "steady", "tight", "mark", "mark", "mark", "decimal"])
         if mode == "burst":
             k = rng.randint(2, 6)
             out.extend([t] * k)
@@ -659,6 +697,11 @@ def arrivals(rng, n, span_s=1.0, marks=(), start0=None):
             t += rng.choice([1, 1, 2, 10, 999])
             out.append(t)
             tags.add("ns_step")
+        elif mode == "decimal":
+            # steps such as 0.1*3 s or 0.57 s whose float value does not survive the seconds <-> ns round trip
+            t += ns(rng.choice([0.1 * rng.randint(1, 9), 0.57, 0.07, 1.1, 0.29]) * rng.choice([1.0, 0.1]))
+            out.append(t)
+            tags.add("decimal_step")
         elif marks:
             t += ns(rng.choice(marks))
             out.append(t)
@@ -674,6 +717,8 @@ def lat(rng, zero_p=0.15, lo=0.0005, hi=0.2):
     if rng.random() < zero_p:
         return 0.0
     r = rng.random()
+    if hi >= 0.1 and r < 0.12:
+        return 0.1 * rng.randint(1, max(1, int(hi * 10)))          # 0.1*k: 0.30000000000000004 and friends
     if r < 0.5:
         return rng.randint(max(1, int(lo * 1000)), max(1, int(hi * 1000))) / 1000.0
     if r < 0.8:
